@@ -10,6 +10,8 @@
    Deadlock l          a thread takes a lock it already holds (never returns); OutOfFuel = unbounded
                        recursion *)
 From GoldV Require Import Base Forest Locks ParentGraph ForestProofs LocksProofs.
+From GoldV Require Flags.
+From GoldV Require Import FlagsProofs.
 From Coq Require Import Permutation Ascii.
 From Coq Require String.
 Import String.StringSyntax.
@@ -171,11 +173,14 @@ Definition no_members : decls := fun _ => Some [].
 
 Theorem C14_old_tree_cycle_refuted :
   member_supertypes (build_old tree_files_mutual) no_members #"aA" #"Foo" = OutOfFuel /\
-  (exists l, member_subtypes (build_old tree_files_mutual) no_members #"aA" #"Foo" = Deadlock l) /\
+  (* the walker of that time kept a node locked while visiting its children (before 0e8d93b) *)
+  (exists l, member_subtypes_old (build_old tree_files_mutual) no_members #"aA" #"Foo" = Deadlock l) /\
+  (* today's walker holds no node: on such a cycle it would recurse without end *)
+  member_subtypes (build_old tree_files_mutual) no_members #"aA" #"Foo" = OutOfFuel /\
   (exists r, member_supertypes (build tree_files_mutual) no_members #"aA" #"Foo" = Ok r) /\
   (exists r, member_subtypes (build tree_files_mutual) no_members #"aA" #"Foo" = Ok r).
 Proof.
-  split; [vm_compute; reflexivity|]. split; [eexists; vm_compute; reflexivity|].
+  split; [vm_compute; reflexivity|]. split; [eexists; vm_compute; reflexivity|]. split; [vm_compute; reflexivity|].
   split; eexists; vm_compute; reflexivity.
 Qed.
 
@@ -187,10 +192,11 @@ Definition tree_files_dup : list file :=
 
 Theorem C14_old_duplicate_class_children_cycle_refuted :
   Term (par (build_nodetach tree_files_dup)) /\
-  (exists l, member_subtypes (build_nodetach tree_files_dup) no_members #"aC" #"Bar" = Deadlock l) /\
+  (exists l, member_subtypes_old (build_nodetach tree_files_dup) no_members #"aC" #"Bar" = Deadlock l) /\
+  member_subtypes (build_nodetach tree_files_dup) no_members #"aC" #"Bar" = OutOfFuel /\
   (exists r, member_subtypes (build tree_files_dup) no_members #"aC" #"Bar" = Ok r).
 Proof.
-  split; [|split; eexists; vm_compute; reflexivity].
+  split; [|split; [eexists; vm_compute; reflexivity | split; [vm_compute; reflexivity | eexists; vm_compute; reflexivity]]].
   (* the parent links are acyclic even there: only the children lists were wrong *)
   intro p. destruct p as [|[|[|p]]]; try (exists 4; vm_compute; reflexivity).
   exists 1. assert (H : parent_of (build_nodetach tree_files_dup) (S (S (S p))) = None).
@@ -230,6 +236,169 @@ Theorem C14_old_concurrent_link_race_refuted :
   (exists r, fst (fst (lookup_from (fst (arun false [0; 1; 0; 0; 1; 1] ast0 race_threads)) 0)) = Ok r).
 Proof. split; [|split]; eexists; vm_compute; reflexivity. Qed.
 
+(* ------------------------------------------------------------------------------------------ *)
+(* the annotation-flag protocol (Model/Flags.v, Proofs/FlagsProofs.v)                            *)
+(*   any number of request threads, any dependency lists per Document object (deps), change /    *)
+(*   save / close notifications at any moment; s ranges over ALL reachable states                *)
+(* ------------------------------------------------------------------------------------------ *)
+Definition flag_state (deps : nat -> list nat) (queues : list (list nat)) (ns : list (nat * bool))
+           (sched : list (option nat)) : Flags.st :=
+  Flags.run deps sched (Flags.init queues ns).
+
+(* thread i waits, in a look-up made from inside a walk, for the flag of Document object o held by j:
+   either j's holding frame is j's top frame (j is building / publishing / walking o: not waiting), or
+   j began the walk that holds o only AFTER i began this look-up (ts >= the push time of i's frame):
+   when the edge came into being its target was running.  If j waits itself, its look-up is younger. *)
+Theorem C14_flags_wait_edges_point_to_running :
+  forall deps queues ns sched i o j,
+    let s := flag_state deps queues ns sched in
+    waits s i o j ->
+    (exists t f r, nth_error (Flags.thr s) i = Some t /\ Flags.stack t = f :: r /\ Flags.ffull f = false) ->
+    ((exists tj x ts l, nth_error (Flags.thr s) j = Some tj /\ In x (Flags.stack tj) /\
+                        Flags.fph x = Flags.PWalk o true ts l /\ top_push s i <= ts) \/
+     (exists tj x, nth_error (Flags.thr s) j = Some tj /\ Flags.stack tj = x :: tl (Flags.stack tj) /\ holds x o)) /\
+    (forall o2 k, waits s j o2 k -> top_push s i < top_push s j).
+Proof.
+  intros deps queues ns sched i o j s Hw Hn. pose proof (reachable_Inv deps queues ns sched) as HI. fold s in HI.
+  split; [apply wait_edge_young; assumption|].
+  intros o2 k Hw2. apply (wait_edge_order s i o j o2 k HI Hw Hw2 Hn).
+Qed.
+
+(* in every reachable state: every thread has finished all its requests, or some thread can take a step; and
+   there is no wait-for cycle of any length *)
+Theorem C14_flags_no_deadlock :
+  forall deps queues ns sched,
+    let s := flag_state deps queues ns sched in
+    (Flags.all_done s = true \/ exists i s', Flags.tstep deps s i = Some s') /\
+    (forall n (path : nat -> nat * nat),
+        (forall k, k <= n -> waits s (fst (path k)) (snd (path k)) (fst (path (S k)))) ->
+        fst (path (S n)) = fst (path 0) -> False).
+Proof.
+  intros deps queues ns sched s. pose proof (reachable_Inv deps queues ns sched) as HI. fold s in HI. split.
+  - destruct (Flags.all_done s) eqn:E; [left; reflexivity | right; apply progress; assumption].
+  - intros n path Hw Hc. eapply (no_wait_cycle s (fst (path 0)) HI n path); eauto.
+Qed.
+
+(* the re-entry paths of the code (annotate_doc's `reentered`, wait_until_annotated's exemption of the
+   annotating thread) are never taken: a look-up never reaches a Document object that its own thread is
+   annotating, because set_symbol_table precedes the walk and a notification that clears the table also
+   replaces the object *)
+Theorem C14_flags_reentry_unreachable :
+  forall deps queues ns sched i t f r o,
+    let s := flag_state deps queues ns sched in
+    nth_error (Flags.thr s) i = Some t -> Flags.stack t = f :: r ->
+    (Flags.fph f = Flags.PLock o \/ Flags.fph f = Flags.PWait o) ->
+    Flags.oat (Flags.getobj s o) <> Some i.
+Proof.
+  intros deps queues ns sched i t f r o s Hi Hs Hp Hat.
+  eapply (no_reentry s i t f r o); eauto. apply reachable_Inv.
+Qed.
+
+(* every request returns, under ANY scheduler that lets some enabled thread (or the next notification) move as
+   long as there is one: in a workspace of N files whose walks look up at most D files each,
+   (1) from every reachable state every chain of moves is finite -- the pair (notifications still to come, cost of
+       the work still to do) decreases lexicographically with every move of every thread;
+   (2) a reachable state in which nothing can move has served every request (and delivered every notification) *)
+Theorem C14_flags_every_request_returns :
+  forall N D deps queues ns sched,
+    (forall o, length (deps o) <= D /\ Forall (fun u => u < N) (deps o)) ->
+    Forall (Forall (fun u => u < N)) queues ->
+    let s := flag_state deps queues ns sched in
+    Acc (fun s2 s1 => Bnd N D s1 /\ exists a, Flags.step deps s1 a = Some s2) s /\
+    Bnd N D s /\
+    ((forall a, Flags.step deps s a = None) -> Flags.all_done s = true /\ Flags.notes s = []).
+Proof.
+  intros N D deps queues ns sched Hd Hq s.
+  assert (HB : Bnd N D s) by (apply run_Bnd; [exact Hd | apply Bnd_init; exact Hq]).
+  split; [apply (steps_terminate N D deps Hd); exact HB|]. split; [exact HB|].
+  intro Hstuck. pose proof (reachable_Inv deps queues ns sched) as HI. fold (flag_state deps queues ns sched) in HI. fold s in HI.
+  split.
+  - destruct (Flags.all_done s) eqn:E; [reflexivity|]. destruct (progress deps s HI E) as [i [s' Hs']].
+    specialize (Hstuck (Some i)). simpl in Hstuck. congruence.
+  - specialize (Hstuck None). simpl in Hstuck. unfold Flags.nstep in Hstuck. destruct (Flags.notes s) as [|[u b] r]; [reflexivity|].
+    destruct b; discriminate.
+Qed.
+
+(* non-vacuity: three request threads on three files that use each other in a circle, a didChange of file 1
+   arriving in the middle; the run below ends with every request answered ... *)
+Definition deps3 (o : nat) : list nat := [ (S o) mod 3; (o + 2) mod 3 ].
+Definition sched3 : list (option nat) :=
+  [Some 0; Some 1; Some 2; Some 0; Some 1; Some 2; Some 0; Some 1; Some 2; Some 0; Some 1; None] ++
+  concat (repeat [Some 0; Some 1; Some 2] 60).
+
+Example C14_flags_three_threads_complete :
+  Flags.all_done (flag_state deps3 [[0]; [1]; [2]] [(1, true)] sched3) = true /\
+  length (Flags.objs (flag_state deps3 [[0]; [1]; [2]] [(1, true)] sched3)) >= 4.
+Proof. split; vm_compute; [reflexivity | lia]. Qed.
+
+(* ... and a reachable state in which a look-up waits for a flag: thread 0, walking file 0, looks up file 1 whose
+   Document object thread 1 has published but whose table it has not set yet; thread 0 cannot move, thread 1 can *)
+(* Document object 0 is file 1's (thread 1 starts), object 1 is file 0's: each walk looks up the other file *)
+Definition deps2 (o : nat) : list nat := [o].
+Definition sched2w : list (option nat) :=
+  [Some 1; Some 1; Some 1; Some 1; Some 1; Some 0; Some 0; Some 0; Some 0; Some 0; Some 0; Some 0; Some 0].
+
+Example C14_flags_a_lookup_waits :
+  let s := flag_state deps2 [[0]; [1]] [] sched2w in
+  Flags.tstep deps2 s 0 = None /\ Flags.all_done s = false /\
+  (exists s', Flags.tstep deps2 s 1 = Some s') /\ waits s 0 0 1.
+Proof.
+  cbv zeta. split; [vm_compute; reflexivity|]. split; [vm_compute; reflexivity|]. split; [eexists; vm_compute; reflexivity|].
+  unfold waits. eexists. eexists. eexists. split; [vm_compute; reflexivity|]. split; [reflexivity|].
+  split; [left; reflexivity|]. split; [vm_compute; reflexivity | lia].
+Qed.
+
+(* ------------------------------------------------------------------------------------------ *)
+(* lock order of the symbol tables: the one call site that violated it                           *)
+(* ------------------------------------------------------------------------------------------ *)
+(* LOCK ORDERS THE MODELS ASSUME (checked call site by call site in docs/lock_audit.md, 0e8d93b):
+     symbol tables      a look-up holds a table and then takes its PARENT (get_symbol_info, search_symbol_info_wparent,
+                        search_all_symbol_info, collect_unique_symbols_w_parents, print_all_symbols); every other site takes
+                        ONE table at a time (class_level_table since d98ed2d, is_own_table_reachable_from,
+                        set_parent_symbol_table, insert_symbol_info); no statement locks two unrelated tables;
+     LINK_LOCK          taken after the parent's table has been fetched, held only across single-table locks and the
+                        diagnostic collector; never held across a flag wait or an analysis;
+     annotation flags   waited for only from the top of a request or from inside a walk (Model/Flags.v); the waiting thread
+                        may hold read/write locks of nodes of ITS OWN tree (single writer per tree, serialised by the flag),
+                        never a symbol-table mutex, never LINK_LOCK, and -- since 0e8d93b -- no entity node and no Document;
+     class tree         Document (copied out, released) < tree map write lock < entity nodes, one node at a time
+                        (is_self_or_ancestor, detach_from_parent, link); the walkers hold no node while they recurse.
+   The theorems above are about each of these in isolation; their composition rests on this list. *)
+
+(* manager/utils.rs::class_level_table BEFORE d98ed2d locked the parent table and, still holding it, the child
+   table, while every look-up locks the child and then the parent: with one thread of each kind on a method table 0
+   whose parent is the class table 1, the schedule `each takes its first lock` blocks both for good *)
+Theorem C14_old_class_level_table_refuted :
+  let ths := qrun [ mkQ [0; 1] []; mkQ [1; 0] [] ] [0; 1] in
+  (forall i, qstep ths i = None) /\ forallb qdone ths = false /\
+  (* the repaired function holds one table at a time (two single-lock sections): every schedule drains *)
+  forallb qdone (qrun [ mkQ [0; 1] []; mkQ [1] [] ] [0; 1; 1; 0; 0; 1; 1]) = true.
+Proof.
+  cbv zeta. split; [|split; vm_compute; reflexivity].
+  intro i. destruct i as [|[|i]]; try (vm_compute; reflexivity).
+  unfold qstep. replace (nth_error _ (S (S i))) with (@None qthread); [reflexivity|].
+  symmetry. apply nth_error_None. vm_compute. lia.
+Qed.
+
+(* ------------------------------------------------------------------------------------------ *)
+(* recursion depth                                                                               *)
+(* ------------------------------------------------------------------------------------------ *)
+(* a linear inheritance chain of n classes, analysed from its deepest class with no table cached: the nested
+   analyses go n deep (fuel n suffices, fuel n - 1 does not) -- the depth the implementation's stack must carry.
+   Instances n = 1, 2, 3, 5, 10, 30, 60 (by computation); the general bound `depth <= number of files + 1` is
+   analyse_fuel_ok / C14_links_acyclic. *)
+Definition chain_key (i : nat) : str := [N.of_nat (200 + i)].
+Definition chain_ws (n : nat) : list cfile :=
+  map (fun i => mkCF (chain_key i) (Some (chain_key i, match i with O => None | S j => Some (chain_key j) end)) []) (seq 0 n).
+Definition depth_is (n : nat) : bool :=
+  match analyse n true (chain_ws n) false ast0 (chain_key (n - 1)), analyse (n - 1) true (chain_ws n) false ast0 (chain_key (n - 1)) with
+  | Ok _, OutOfFuel => true
+  | _, _ => false
+  end.
+
+Example C14_analysis_depth_is_chain_length : forallb depth_is [1; 2; 3; 5; 10; 30; 60] = true.
+Proof. vm_compute. reflexivity. Qed.
+
 Print Assumptions C14_links_acyclic.
 Print Assumptions C14_link_rule_keeps_acyclic.
 Print Assumptions C14_lookup_terminates_no_deadlock.
@@ -245,3 +414,11 @@ Print Assumptions C14_old_tree_cycle_refuted.
 Print Assumptions C14_old_duplicate_class_children_cycle_refuted.
 Print Assumptions C14_concurrent_analyses_acyclic.
 Print Assumptions C14_old_concurrent_link_race_refuted.
+Print Assumptions C14_flags_wait_edges_point_to_running.
+Print Assumptions C14_flags_no_deadlock.
+Print Assumptions C14_flags_reentry_unreachable.
+Print Assumptions C14_flags_every_request_returns.
+Print Assumptions C14_flags_three_threads_complete.
+Print Assumptions C14_flags_a_lookup_waits.
+Print Assumptions C14_old_class_level_table_refuted.
+Print Assumptions C14_analysis_depth_is_chain_length.
